@@ -341,9 +341,10 @@ static void cmd_lat(const char *tag, int k, int bp)
             for (i = 0; i < x.n_links; i++) {
                 latlink_t *l = x.links[i];
                 int32 ascr2 = 0, pr = ps_latlink_prob(dag, l, &ascr2);
-                /* index, path_scr, best_prev, alpha, beta, posterior (API), ascr (API) */
-                printf("R %d %d %d %d %d %d %d\n", i, l->path_scr, link_ix(&x, ps_latlink_pred(l)),
-                       l->alpha, l->beta, pr, ascr2);
+                /* index, path_scr, best_prev, alpha, beta, posterior (API), ascr (API), scaled score as the
+                 * forward/backward passes compute it */
+                printf("R %d %d %d %d %d %d %d %d\n", i, l->path_scr, link_ix(&x, ps_latlink_pred(l)),
+                       l->alpha, l->beta, pr, ascr2, (int32)((l->ascr << SENSCR_SHIFT) * ascale));
             }
             /* the lattice-based segmentation of the best path */
             dump_seg(lattice_seg_iter(dag, best), "PX");
